@@ -201,6 +201,13 @@ StringDictionaryRPHTFC::StringDictionaryRPHTFC(IteratorDictString *it,
       // realloc if required
       while ((bytesStrings + (bucketsize * 1000)) > reservedStrings)
         reservedStrings = Reallocate(&textStrings, reservedStrings);
+      // Buckets of long strings exceed the previous estimate: the encoded
+      // header (up to 4 bytes per symbol) plus bitsrp bits per symbol of the
+      // internal strings are required
+      while ((bytesStrings + 4 * headers[bucket].size() +
+              ((beginnings[bucket] - beginnings[bucket - 1]) * bitsrp) / 8 + 2) >
+             reservedStrings)
+        reservedStrings = Reallocate(&textStrings, reservedStrings);
 
       bytes = 0;
       tmp[bytes] = 0;
